@@ -4,13 +4,17 @@ import (
 	"bytes"
 	"crypto/ed25519"
 	"encoding/base64"
+	"encoding/json"
 	"fmt"
+	"regexp"
 	"runtime/debug"
 	"sort"
+	"strconv"
 	"strings"
 	"time"
 
 	gmsl "github.com/matrix-org/gomatrixserverlib"
+	"github.com/tidwall/gjson"
 
 	"verifharness/ref"
 	"verifharness/sim"
@@ -52,6 +56,7 @@ type c02 struct {
 	relax      bool
 	lastBenign string
 	tampers    []string // corrupt_member kinds fired so far
+	dupWire    bool     // the bytes in flight repeat a member name
 	signers    map[string]bool
 	faults     int
 	spare      ed25519.PublicKey
@@ -127,6 +132,7 @@ func (c *c02) model() map[string]any {
 
 // setWire re-serialises a model in a tape-chosen style.
 func (c *c02) setWire(m map[string]any, st style) {
+	c.dupWire = false
 	c.cur = spell(m, st)
 	back, err := parseObject(c.cur)
 	harnessAssert(err == nil && ref.Render(back) == ref.Render(m), "speller changed the value (style %v): %q", st, clip(string(c.cur), 300))
@@ -247,6 +253,15 @@ func runC02(r *sim.Run) {
 func (c *c02) sign(e entity, where string) {
 	r := c.r
 	r.Op()
+	if c.dupWire {
+		// A text with a repeated member name is outside what the completeness
+		// clause speaks about (which of the two values was "signed"?): an
+		// entity about to sign first reads the object and writes it out again,
+		// as any relay may. The tampering itself stays judged: every earlier
+		// signature must now fail.
+		c.setWire(c.model(), drawStyle(c.t))
+		r.Probe("object_with_repeated_name_normalised_before_signing")
+	}
 	m0 := c.model()
 	out, err, pan := safeSign(e.name, e.kid, e.key.Priv, c.cur)
 	r.Logf("%s: %s signs %s -> err=%v panic=%q out=%s", where, e, digest(c.cur), err, pan, digest(out))
@@ -381,11 +396,27 @@ func (c *c02) corruptMember(h int) {
 	m := c.model()
 	before := projection(m)
 	ks := editable(m)
-	kind := t.Intn(4)
+	kind := t.Intn(5)
 	if len(ks) == 0 {
 		kind = 1
 	}
 	var what string
+	if kind == 4 {
+		// a member name repeated on the wire with another value: a reader that
+		// keeps the last one (encoding/json, the independent decoder here) sees
+		// a changed object
+		if w := c.duplicateMember(m, ks); w != "" {
+			after := projection(c.model())
+			harnessAssert(after != before, "corrupt_member %s did not change the value", w)
+			c.faults++
+			c.tampers = append(c.tampers, "duplicate")
+			r.Fault("corrupt_member")
+			r.Probe("corrupt_member_duplicate")
+			r.Logf("hop %d corrupt_member %s -> %s", h, w, digest(c.cur))
+			return
+		}
+		kind = 0
+	}
 	switch kind {
 	case 0: // value change
 		k := ks[t.Intn(len(ks))]
@@ -424,6 +455,55 @@ func (c *c02) corruptMember(h int) {
 	r.Fault("corrupt_member")
 	r.Probe("corrupt_member_" + kindName)
 	r.Logf("hop %d corrupt_member %s -> %s", h, what, digest(c.cur))
+}
+
+var simpleKey = regexp.MustCompile(`^[A-Za-z0-9_]+$`)
+
+// duplicateMember rewrites the wire bytes so that one member (top-level, or
+// of a top-level object) appears twice, the second time with another value.
+// Returns "" if the object has no member it can address.
+func (c *c02) duplicateMember(m map[string]any, ks []string) string {
+	t := c.t
+	if c.dupWire {
+		return "" // one repeated name at a time: the reader keeps the last occurrence
+	}
+	var paths, names []string
+	var olds []any
+	for _, k := range ks {
+		if !simpleKey.MatchString(k) {
+			continue
+		}
+		paths, names, olds = append(paths, k), append(names, k), append(olds, m[k])
+		if sub, ok := m[k].(map[string]any); ok {
+			for _, k2 := range sortedKeys(sub) {
+				if simpleKey.MatchString(k2) {
+					paths, names, olds = append(paths, k+"."+k2), append(names, k2), append(olds, sub[k2])
+				}
+			}
+		}
+	}
+	if len(paths) == 0 {
+		return ""
+	}
+	i := t.Intn(len(paths))
+	res := gjson.GetBytes(c.cur, paths[i])
+	if !res.Exists() || res.Index <= 0 || res.Index+len(res.Raw) > len(c.cur) || string(c.cur[res.Index:res.Index+len(res.Raw)]) != res.Raw {
+		return ""
+	}
+	name := strconv.Quote(names[i])
+	if t.Bool() { // the repeated name spelled with an escape
+		name = fmt.Sprintf(`"\u%04x%s"`, names[i][0], names[i][1:])
+	}
+	nv, err := json.Marshal(c.different(olds[i]))
+	harnessAssert(err == nil, "cannot serialise the new value: %v", err)
+	ins := "," + name + ":" + string(nv)
+	pos := res.Index + len(res.Raw)
+	c.cur = append(append(append([]byte{}, c.cur[:pos]...), ins...), c.cur[pos:]...)
+	c.dupWire = true
+	if _, err := parseObject(c.cur); err != nil {
+		harnessAssert(false, "duplicate insertion broke the JSON: %v", err)
+	}
+	return fmt.Sprintf("duplicate %q", paths[i])
 }
 
 // nestedEdit changes something strictly inside v (or v itself when v is a leaf).
